@@ -35,3 +35,96 @@ package bcl
 //@   mode bv
 //@   ensures twos_complement: result == int64(x)
 //@   modifies nothing
+
+// ---------------------------------------------------------------------------
+// C14: the version 1.1 format constants (ground obligations). The numbering
+// below is the recorded format; a renumbering must come with a version bump,
+// in which case this table is re-targeted to the new version.
+//
+//@ group C14
+//@ const magic: bytecodeMagic == "\xFC\x6C"
+//@ const major: bytecodeMajor == 1
+//@ const minor: bytecodeMinor == 1
+//@ const jump_operand_bytes: jumpByteLength == 2
+//@ const op_NOP: opcode(opNOP) == 0
+//@ const op_RET: opcode(opRET) == 1
+//@ const op_PRINT: opcode(opPRINT) == 2
+//@ const op_SETLOCAL: opcode(opSETLOCAL) == 3
+//@ const op_GETLOCAL: opcode(opGETLOCAL) == 4
+//@ const op_DEFBLOCK: opcode(opDEFBLOCK) == 5
+//@ const op_ENDBLOCK: opcode(opENDBLOCK) == 6
+//@ const op_SETFIELD: opcode(opSETFIELD) == 7
+//@ const op_GETFIELD: opcode(opGETFIELD) == 8
+//@ const op_CONST: opcode(opCONST) == 9
+//@ const op_NIL: opcode(opNIL) == 10
+//@ const op_ZERO: opcode(opZERO) == 11
+//@ const op_ONE: opcode(opONE) == 12
+//@ const op_TRUE: opcode(opTRUE) == 13
+//@ const op_FALSE: opcode(opFALSE) == 14
+//@ const op_NOT: opcode(opNOT) == 15
+//@ const op_EQ: opcode(opEQ) == 16
+//@ const op_LT: opcode(opLT) == 17
+//@ const op_GT: opcode(opGT) == 18
+//@ const op_ADD: opcode(opADD) == 19
+//@ const op_SUB: opcode(opSUB) == 20
+//@ const op_MUL: opcode(opMUL) == 21
+//@ const op_DIV: opcode(opDIV) == 22
+//@ const op_NEG: opcode(opNEG) == 23
+//@ const op_UNPLUS: opcode(opUNPLUS) == 24
+//@ const op_JUMP: opcode(opJUMP) == 25
+//@ const op_LOOP: opcode(opLOOP) == 26
+//@ const op_JFALSE: opcode(opJFALSE) == 27
+//@ const op_POP: opcode(opPOP) == 28
+//@ const op_POPN: opcode(opPOPN) == 29
+//@ const op_BIND: opcode(opBIND) == 30
+//@ const type_NIL: typecode(typeNIL) == 0
+//@ const type_INT: typecode(typeINT) == 1
+//@ const type_FLOAT: typecode(typeFLOAT) == 2
+//@ const type_STR: typecode(typeSTR) == 3
+//@ const type_BOOL: typecode(typeBOOL) == 4
+//@ const bind_one: bindOne == 1
+//@ const bind_first: bindFirst == 2
+//@ const bind_last: bindLast == 3
+//@ const bind_all: bindAll == 15
+//@ const bind_struct: bindStruct == 16
+//@ const bind_slice: bindSlice == 32
+//@ const stack_size: stackSize == 1024
+//@ const block_stack_size: blockStackSize == 16
+//@ const locals_max: localsMaxSize == 1024
+
+// ---------------------------------------------------------------------------
+// linecalc.go (C08, C14): offset -> (line, column) against the counting
+// definition; the line table holds exactly the newline offsets.
+//
+//@ group C08,C14
+//
+//@ func newLineCalc
+//@   ensures result != nil && len(result.lfs) == 0
+//
+//@ func (*lineCalc).lineColAt
+//@   requires increasing: forall i int, j int :: 0 <= i && i < j && j < len(lc.lfs) ==> lc.lfs[i] < lc.lfs[j]
+//@   ensures counting: exists j int :: 0 <= j && j <= len(lc.lfs) &&
+//@       (forall i int :: 0 <= i && i < j ==> lc.lfs[i] < pos) &&
+//@       (forall i int :: j <= i && i < len(lc.lfs) ==> lc.lfs[i] >= pos) &&
+//@       result0 == j + 1 && result1 == (j == 0 ? pos + 1 : pos - lc.lfs[j-1])
+//@   modifies nothing
+//
+//@ func (*lineCalc).add
+//@   requires after_last: forall k int :: 0 <= k && k < len(lc.lfs) ==> lc.lfs[k] < prefix
+//@   requires increasing: forall i int, j int :: 0 <= i && i < j && j < len(lc.lfs) ==> lc.lfs[i] < lc.lfs[j]
+//@   ensures grows: len(lc.lfs) >= old(len(lc.lfs))
+//@   ensures old_kept: forall k int :: 0 <= k && k < old(len(lc.lfs)) ==> lc.lfs[k] == old(lc.lfs[k])
+//@   ensures only_newlines: forall k int :: old(len(lc.lfs)) <= k && k < len(lc.lfs) ==>
+//@       prefix <= lc.lfs[k] && lc.lfs[k] < prefix + len(s) && s[lc.lfs[k]-prefix] == '\n'
+//@   ensures all_newlines: forall i int :: 0 <= i && i < len(s) && s[i] == '\n' ==>
+//@       (exists k int :: old(len(lc.lfs)) <= k && k < len(lc.lfs) && lc.lfs[k] == prefix + i)
+//@   ensures increasing: forall i int, j int :: 0 <= i && i < j && j < len(lc.lfs) ==> lc.lfs[i] < lc.lfs[j]
+//@   loop 1 invariant grows: len(lc.lfs) >= old(len(lc.lfs)) && 0 <= $iter && $iter <= len(s)
+//@   loop 1 invariant old_kept: forall k int :: 0 <= k && k < old(len(lc.lfs)) ==> lc.lfs[k] == old(lc.lfs[k])
+//@   loop 1 invariant only_newlines: forall k int :: old(len(lc.lfs)) <= k && k < len(lc.lfs) ==>
+//@       prefix <= lc.lfs[k] && lc.lfs[k] < prefix + $iter && s[lc.lfs[k]-prefix] == '\n'
+//@   loop 1 invariant all_newlines: forall i int :: 0 <= i && i < $iter && s[i] == '\n' ==>
+//@       (exists k int :: old(len(lc.lfs)) <= k && k < len(lc.lfs) && lc.lfs[k] == prefix + i)
+//@   loop 1 invariant below: forall k int :: 0 <= k && k < len(lc.lfs) ==> lc.lfs[k] < prefix + $iter
+//@   loop 1 invariant increasing: forall i int, j int :: 0 <= i && i < j && j < len(lc.lfs) ==> lc.lfs[i] < lc.lfs[j]
+//@   modifies lc.lfs
